@@ -1,4 +1,5 @@
 import HavocVerif.Gen.LockFacts
+import HavocVerif.Gen.LockPaths
 /-
   Lock pairing over the regenerated per-function event sequences
   (Gen.LockFacts, source order).  `balanced evs` = no `return`, and no falling off
@@ -69,5 +70,11 @@ def unguardedIn (pkgs tables : List String) : List (String × List String) :=
 
 def unbalancedIn (pkgs : List String) : List String :=
   (funcs.filter fun (pkg, _, evs) => pkgs.contains pkg && !balanced evs).map fun (pkg, n, _) => pkg ++ "/" ++ n
+
+/-- path-sensitive: functions with a control-flow path (Gen.LockPaths: branches, cases, loop bodies taken zero times or
+    once, early returns followed separately) that returns with a mutex held that no defer releases -/
+def pathsUnbalancedIn (pkgs : List String) : List String :=
+  (Gen.LockPaths.funcs.filter fun (pkg, _, ps) => pkgs.contains pkg && !(ps.all balanced)).map
+    fun (pkg, n, _) => pkg ++ "/" ++ n
 
 end Havoc
